@@ -3,7 +3,7 @@ import ast
 import math
 
 from ..loader import AnalysisError, NotConst, attr_path, src, walk_no_nested_defs, norm_stmt, call_name
-from ..symx import SymX, classify, show, C, TRUE, FALSE, simp, is_const
+from ..symx import SymX, classify, show, C, TRUE, FALSE, simp, is_const, is_term
 from ..nf import SELF_NEXT, SF
 from . import kernels as K
 
@@ -212,7 +212,7 @@ def _sub(t):
 
     def walk(x):
         if isinstance(x, tuple):
-            if x and isinstance(x[0], str):
+            if is_term(x):
                 out.append(x)
             for y in x:
                 walk(y)
